@@ -1,0 +1,138 @@
+// Copyright Amazon.com, Inc. or its affiliates. All Rights Reserved.
+//
+// Licensed under the Apache License, Version 2.0 (the "License");
+// you may not use this file except in compliance with the License.
+// You may obtain a copy of the License at
+//
+//      http://www.apache.org/licenses/LICENSE-2.0
+//
+// Unless required by applicable law or agreed to in writing, software
+// distributed under the License is distributed on an "AS IS" BASIS,
+// WITHOUT WARRANTIES OR CONDITIONS OF ANY KIND, either express or implied.
+// See the License for the specific language governing permissions and
+// limitations under the License.
+
+//go:build verif
+
+package escape
+
+import (
+	"fmt"
+	"sort"
+	"strings"
+
+	"golang.org/x/tools/go/ssa"
+)
+
+// This file is only compiled with the build tag `verif`. It gives an external verification harness read access to
+// the graphs computed by the escape analysis and lets it apply the real transfer function of an instruction to a
+// graph of its choice (lattice laws and monotonicity checks). It does not change the analysis.
+
+// VerifFunc exposes the analysis state of one function.
+type VerifFunc struct{ ea *functionAnalysisState }
+
+// VerifFuncs returns the functions that were summarised (with a body), sorted by name.
+func (p *ProgramAnalysisState) VerifFuncs() []VerifFunc {
+	var out []VerifFunc
+	for f, ea := range p.summaries {
+		if ea == nil || f == nil || len(f.Blocks) == 0 || ea.finalGraph == nil || ea.initialGraph == nil {
+			continue
+		}
+		out = append(out, VerifFunc{ea})
+	}
+	sort.Slice(out, func(i, j int) bool { return out[i].ea.function.String() < out[j].ea.function.String() })
+	return out
+}
+
+// Fn returns the SSA function.
+func (v VerifFunc) Fn() *ssa.Function { return v.ea.function }
+
+// Overflow reports whether the summary of the function was cut because it grew too large.
+func (v VerifFunc) Overflow() bool { return v.ea.overflow }
+
+// Initial, Final and BlockEnd return the graphs of the function (never to be mutated: clone first).
+func (v VerifFunc) Initial() *EscapeGraph { return v.ea.initialGraph }
+
+// Final returns the final graph (summary) of the function.
+func (v VerifFunc) Final() *EscapeGraph { return v.ea.finalGraph }
+
+// BlockEnd returns the graph at the end of block b (nil if the block was never processed).
+func (v VerifFunc) BlockEnd(b *ssa.BasicBlock) *EscapeGraph { return v.ea.blockEnd[b] }
+
+// BlockStart returns a fresh graph equal to the join of the end graphs of the predecessors of b (the initial graph for
+// the entry block), as ProcessBlock computes it.
+func (v VerifFunc) BlockStart(b *ssa.BasicBlock) *EscapeGraph {
+	g := NewEmptyEscapeGraph(v.ea.nodes)
+	if len(b.Preds) == 0 {
+		g.Merge(v.ea.initialGraph)
+		return g
+	}
+	for _, pred := range b.Preds {
+		if pg := v.ea.blockEnd[pred]; pg != nil {
+			g.Merge(pg)
+		}
+	}
+	return g
+}
+
+// Transfer applies the real transfer function of instr IN PLACE to g. A panic of the transfer function (which can
+// happen on graphs that do not arise during the analysis) is returned as a string.
+func (v VerifFunc) Transfer(instr ssa.Instruction, g *EscapeGraph) (panicked string) {
+	defer func() {
+		if r := recover(); r != nil {
+			panicked = fmt.Sprint(r)
+		}
+	}()
+	v.ea.transferFunction(instr, g)
+	return ""
+}
+
+// VerifNodes returns the nodes that have a status in g, sorted by number.
+func (g *EscapeGraph) VerifNodes() []*Node {
+	var ns []*Node
+	for n := range g.status {
+		ns = append(ns, n)
+	}
+	sort.Slice(ns, func(i, j int) bool { return ns[i].number < ns[j].number })
+	return ns
+}
+
+// VerifStatus returns the status of n in g.
+func (g *EscapeGraph) VerifStatus(n *Node) (EscapeStatus, bool) {
+	s, ok := g.status[n]
+	return s, ok
+}
+
+// VerifSize returns the number of nodes with a status and the number of atomic edges.
+func (g *EscapeGraph) VerifSize() (nodes int, edges int) {
+	return len(g.status), len(g.Edges(nil, nil, EdgeAll))
+}
+
+// VerifStatusClosed reports whether no edge leads from a node to a node of lower status (the invariant maintained by
+// AddEdge / MergeNodeStatus); it returns a description of the first offending edge otherwise.
+func (g *EscapeGraph) VerifStatusClosed() string {
+	for src, outs := range g.edges {
+		for dest := range outs {
+			if g.status[src] > g.status[dest] {
+				return fmt.Sprintf("edge %v -> %v: status %d -> %d", src, dest, g.status[src], g.status[dest])
+			}
+		}
+	}
+	return ""
+}
+
+// VerifCanonical renders g independently of node numbers (nodes are named by kind and debug string), for comparing
+// the results of different runs.
+func (g *EscapeGraph) VerifCanonical() string {
+	name := func(n *Node) string { return fmt.Sprintf("%d:%s", n.kind, n.debugInfo) }
+	var lines []string
+	for n, s := range g.status {
+		lines = append(lines, fmt.Sprintf("N %s = %d", name(n), s))
+	}
+	for _, e := range g.Edges(nil, nil, EdgeAll) {
+		lines = append(lines, fmt.Sprintf("E %s -> %s %d", name(e.src), name(e.dest), e.mask))
+	}
+	sort.Strings(lines)
+	// duplicates (several nodes with the same kind and debug string) are kept as a multiset
+	return strings.Join(lines, "\n")
+}
